@@ -3,6 +3,7 @@ import FastgoModel.Reader.Example
 import FastgoModel.Proofs.StreamFrame
 import FastgoModel.Proofs.FrameUncond
 import FastgoModel.Proofs.FrameDict
+import FastgoModel.Reader.FaithfulCheck
 /-!
 # C05 — after io.EOF the source is positioned exactly at the end of the DEFLATE stream
 
@@ -87,6 +88,30 @@ theorem C05_spec_inflater_exact_of_done (mode : Spec.Mode) (body : List UInt8) (
     (Container.specInflater mode).Exact body out.toList :=
   Container.specInflater_exact_of_done mode body out rest st h hr
 
+/-- **a checked session ends exactly behind the stream**: if the source holds a complete stream followed by ANY bytes and
+    the real Reader's session on it passes `checkFaithful` with io.EOF, then the Reader delivered exactly the stream's
+    data and had consumed exactly the stream's bytes — the statement of C05 for that session, with the position computed
+    from the stream alone (by `inflate_prefix_stable`) -/
+theorem C05_checked_session_position (stream suffix delivered : List UInt8) (consumed : Nat) (cut : Bool)
+    (out : Array UInt8) (rest : Spec.Bits) (st : Spec.Stats)
+    (hs : Spec.inflate .permissive [] stream = .done out rest st) (hr : rest.length < 8)
+    (hc : checkFaithful (stream ++ suffix) delivered .eof consumed cut = true) :
+    delivered = out.toList ∧ consumed = stream.length := by
+  obtain ⟨out', rest', st', h1, hd, hcons⟩ := checkFaithful_eof (stream ++ suffix) delivered consumed cut hc
+  obtain ⟨st2, h2⟩ := Spec.inflate_prefix_stable .permissive stream suffix out rest st hs hr
+  rw [h2] at h1
+  simp only [Spec.Result.done.injEq] at h1
+  obtain ⟨ho, hrr, _⟩ := h1
+  subst ho hrr
+  have hne : 1 ≤ stream.length := by
+    cases stream with
+    | nil => simp [Spec.inflate, Spec.inflateBlocks, Spec.inflateBlock, Spec.takeField, Spec.bytesToBits] at hs
+    | cons b bs => simp
+  refine ⟨hd, ?_⟩
+  rw [hcons]
+  simp only [List.length_append, Spec.bytesToBits_length]
+  omega
+
 /-! Non-vacuity: the 18 bytes fastgo emits for `Write("abcabcabcabc"); Close()` at level 1 pass `checkStream`; followed by
     other bytes the specification inflater still yields the 12 bytes and leaves exactly those bytes. -/
 def realStream : List UInt8 := [0x35,0xc2,0x31,0x0d,0x00,0x00,0x00,0x83,0x30,0xad,0x1b,0xfe,0x3d,0x70,0x91,0x74,0x27,0x08]
@@ -100,6 +125,7 @@ end Fastgo.Reader
 #print axioms Fastgo.Reader.C05_spec_stream_frame
 #print axioms Fastgo.Reader.C05_spec_prefix_stable
 #print axioms Fastgo.Reader.C05_spec_prefix_stable_dict
+#print axioms Fastgo.Reader.C05_checked_session_position
 #print axioms Fastgo.Reader.C05_spec_inflater_exact_of_done
 #print axioms Fastgo.Reader.C05_spec_inflater_exact
 #print axioms Fastgo.Reader.C05_invariant
